@@ -136,6 +136,16 @@ impl P2 {
     }
 }
 
+/// Correctly rounded midpoint of two finite numbers (no overflow, exact halving
+/// of the sum also in the subnormal range).
+pub fn midpoint(a: f64, b: f64) -> f64 {
+    if a.abs() <= 0.5 * f64::MAX && b.abs() <= 0.5 * f64::MAX {
+        (a + b) / 2.0
+    } else {
+        a / 2.0 + b / 2.0
+    }
+}
+
 /// Exact p-quantile convention of C07 for fewer than five observations.
 /// Returns the set of acceptable values.
 pub fn small_quantile(sorted: &[f64], p: f64) -> Vec<f64> {
@@ -165,8 +175,7 @@ pub fn small_quantile(sorted: &[f64], p: f64) -> Vec<f64> {
         if k == 0 {
             ok.push(h[0]);
         } else if k < n {
-            ok.push(0.5 * h[k - 1] + 0.5 * h[k]);
-            ok.push((h[k - 1] + h[k]) / 2.0);
+            ok.push(midpoint(h[k - 1], h[k]));
         } else {
             ok.push(h[n - 1]);
         }
@@ -178,8 +187,7 @@ pub fn small_quantile(sorted: &[f64], p: f64) -> Vec<f64> {
             ok.push(h[j]);
         }
         if k >= 1 && (k as usize) < n {
-            ok.push(0.5 * h[k as usize - 1] + 0.5 * h[k as usize]);
-            ok.push((h[k as usize - 1] + h[k as usize]) / 2.0);
+            ok.push(midpoint(h[k as usize - 1], h[k as usize]));
         }
     } else {
         let j = (t.ceil() as i64 - 1).clamp(0, n as i64 - 1) as usize;
